@@ -30,10 +30,13 @@ def _dec(v):
 
 
 class Cur:
-    def __init__(self, cur):
+    def __init__(self, cur, shim=None):
         self._c = cur
+        self._shim = shim
 
     def execute(self, sql, params=()):
+        if self._shim is not None and self._shim.hook is not None and not sql.lstrip().lower().startswith('select'):
+            self._shim.hook('sql-execute')
         self._c.execute(sql, tuple(_enc(p) for p in params))
         return self
 
@@ -53,16 +56,19 @@ class Cur:
 
 
 class Conn:
-    def __init__(self, conn):
+    def __init__(self, conn, shim=None):
         self._c = conn
+        self._shim = shim
 
     def cursor(self):
-        return Cur(self._c.cursor())
+        return Cur(self._c.cursor(), self._shim)
 
     def execute(self, sql, params=()):
-        return Cur(self._c.cursor()).execute(sql, params)
+        return Cur(self._c.cursor(), self._shim).execute(sql, params)
 
     def commit(self):
+        if self._shim is not None and self._shim.hook is not None:
+            self._shim.hook('sql-commit')
         self._c.commit()
 
     def close(self):
@@ -75,9 +81,10 @@ class Conn:
 class Shim:
     def __init__(self):
         self.conns = []
+        self.hook = None        # crash harness: called before every modifying execute / commit
 
     def connect(self, name, *a, **k):
-        c = Conn(_real.connect(name, *a, **k))
+        c = Conn(_real.connect(name, *a, **k), self)
         self.conns.append(c)
         return c
 
